@@ -21,6 +21,7 @@ structure JSt where
   fetchMaxBytes : Int := 32768
   storage : String := "none"
   retryMax : Nat := 1200
+  crcOn : Bool := true
   /-- C20: what the client has loaded: topic ↦ partition count -/
   loaded : List (Bytes × Nat) := []
   -- C12
@@ -214,6 +215,7 @@ def trackSettings (s : JSt) (op : OpRec) : JSt :=
   | [_, "set", "fetch_min_bytes", v] => { s with fetchMinBytes := v.toInt?.getD 0 }
   | [_, "set", "fetch_max_bytes", v] => { s with fetchMaxBytes := v.toInt?.getD 0 }
   | [_, "set", "storage", v] => { s with storage := v }
+  | [_, "set", "crc", v] => { s with crcOn := v == "1" }
   | [_, "set", "retry_max", v] => { s with retryMax := v.toNat?.getD 0 }
   | ["client_new", _] => { s with clientId := [], compression := 0, fetchMaxWait := 100, fetchMinBytes := 4096, fetchMaxBytes := 32768, storage := "none" }
   | _ => s
@@ -1194,6 +1196,78 @@ def judgeC02 (ops : List OpRec) : List String :=
     { s with cluster := c' }) ({} : JSt)
   s.out
 
+/-! ### C04 -/
+
+/-- walk a message set the way a decoder reaches its entries, checking nothing but sizes and checksums:
+    `some true` = an entry with a wrong checksum is reached (before anything else goes wrong),
+    `some false` = every reached entry is intact, `none` = the walk cannot tell (structural damage) -/
+def reachesBadCrc (dec : Dec) : Nat → Nat → Bytes → Option Bool
+  | _, 0, _ => some false
+  | depth, fuel+1, bs =>
+    if bs.isEmpty then some false else
+    match readI 8 bs with
+    | none => some false                    -- cut entry: end of set
+    | some (_, r1) =>
+    match readI 4 r1 with
+    | none => some false
+    | some (sz, r2) =>
+    if sz ≤ 0 then some false else
+    match readN sz.toNat r2 with
+    | none => some false
+    | some (m, rest) =>
+    match readN 4 m with
+    | none => some false
+    | some (crc, body) =>
+    if unbe crc ≠ (crc32 body).toNat then some true else
+    match (do
+        let magic ← pI8
+        let attr ← pI8
+        let k ← pNBytes
+        let v ← pNBytes
+        pure (magic, attr, k, v) : P _) body with
+    | some ((magic, attr, _, v), _) =>
+      if magic ≠ 0 then none else
+      let c := (toU 1 attr) % 8
+      if c = 0 then reachesBadCrc dec depth fuel rest
+      else
+        let inner := match v with
+          | some v => if c = 1 then dec.gunzip v else if c = 2 then dec.unxerial v else none
+          | none => none
+        match inner, depth with
+        | some ib, d+1 =>
+          match reachesBadCrc dec d (ib.length + 1) ib with
+          | some false => reachesBadCrc dec (d+1) fuel rest
+          | r => r
+        | _, _ => none
+    | none => none
+
+def judgeC04 (ops : List OpRec) : List String :=
+  let s := ops.foldl (fun (s : JSt) op =>
+    let s := { s with cluster := applySetup s.cluster op.setup }
+    let s := trackSettings s op
+    let (c', bodies) := truthBodies s.cluster op
+    let s := match op.toks with
+    | _ :: "fetch_messages" :: _ =>
+      -- in response order: the first partition set that reaches a bad checksum decides
+      let sets : List Bytes := bodies.flatMap fun (x : Bytes × Request × RespBody) => match x.2.2 with
+        | RespBody.fetch ts => ts.flatMap fun (tp : Bytes × List FetchPartResp) => tp.2.map fun (pr : FetchPartResp) => pr.set
+        | _ => []
+      let verdicts := sets.map fun (b : Bytes) => reachesBadCrc leanDec 4 (b.length + 1) b
+      if s.crcOn then
+        match verdicts.find? (fun (v : Option Bool) => v != some false) with
+        | some (some true) =>
+          if op.result == "err Kafka(2)" then s
+          else viol s "C04-corrupt-message-delivered" op s!"a message whose checksum does not match was reached with validation on; result `{op.result.take 300}`"
+        | _ => s
+      else
+        -- validation off: a wrong checksum alone must never cause rejection
+        if verdicts.all (fun (v : Option Bool) => v.isSome) && op.result == "err Kafka(2)" then
+          viol s "C04-rejected-with-validation-off" op "corrupt-message error although validation is disabled"
+        else s
+    | _ => s
+    { s with cluster := c' }) ({} : JSt)
+  s.out
+
 def judge (prop : String) (lines : List String) : List String :=
   let ops := parseOps lines
   match prop with
@@ -1210,6 +1284,7 @@ def judge (prop : String) (lines : List String) : List String :=
   | "C05" => judgeC05 ops
   | "C06" => judgeC06 ops
   | "C02" => judgeC02 ops
+  | "C04" => judgeC04 ops
   | _ => []
 
 end Kafka.Judge
